@@ -346,14 +346,94 @@ def stmt_text(e: E, mode: str) -> str:
     return ('analyze ' + s) if mode == 'analyze' else s
 
 
-def build(chain: list[str], leafkind: str) -> E:
-    """innermost context first"""
+def build(chain: list[str], leafkind) -> E:
+    """innermost context first; `leafkind` = name of a leaf or an E"""
     fr = Fresh()
-    e = leaf(leafkind)
+    e = leafkind if isinstance(leafkind, E) else leaf(leafkind)
     for name in chain:
         hs, rs, f = CTX[name]
         e = f(as_sort(e, hs, fr), fr)
     return e
+
+
+# ====================================================== generated functions
+@dataclasses.dataclass
+class FnSpec:
+    name: str
+    annot: str          # 'none' (volatility inferred) | 'mod' ('Modifying') | 'low' ('Volatile')
+    body: E
+    top: bool           # body is the statement form (`with x := … select x`) rather than `(…)`
+    deps: tuple         # names of generated functions the body calls
+    meta: dict
+
+    @property
+    def ddl(self) -> str:
+        rt = 'set of int64' if self.body.sort == 'I' else 'set of Log'
+        body = self.body.top if (self.top and self.body.top) else self.body.text
+        vol = {'none': '', 'mod': "set volatility := 'Modifying'; ", 'low': "set volatility := 'Volatile'; "}
+        return f'create function {self.name}() -> {rt} {{ {vol[self.annot]}using ({body}) }};'
+
+    @property
+    def decl(self) -> str:
+        return f'decl {self.name} {self.annot} ' + ' '.join(self.body.toks)
+
+    @property
+    def call(self) -> E:
+        return E(self.body.sort, ('C', '@' + self.name, '0'), f'{self.name}()')
+
+
+FN_DML = ['insert', 'update', 'delete', 'mklog', 'mkinf', 'mk2']
+
+
+def gen_fn_specs(rng, quick: bool) -> list[FnSpec]:
+    """function bodies with a DML leaf planted in every context of CTX (the body is the context
+    itself: `with x := (insert …) select x`, `for x in (…) union …`, operands, shapes, clauses…),
+    volatility omitted / declared, plus call chains f -> g -> … -> insert."""
+    names = sorted(CTX)
+    specs: list[FnSpec] = []
+
+    def add(chain, lk, annot, deps=(), top=None):
+        e = build(chain, lk)
+        if top is None:
+            top = bool(e.top) and rng.random() < 0.7
+        sp = FnSpec(f'fg{len(specs)}', annot, e, top, tuple(deps),
+                    {'chain': chain, 'leaf': lk if isinstance(lk, str) else lk.text, 'annot': annot})
+        specs.append(sp)
+        return sp
+
+    level1 = []
+    for cn in names:
+        if quick:
+            lk = rng.choice(FN_DML)
+            if build([cn], lk).top:
+                # statement-form bodies (WITH / FOR / DML statements): always with the volatility inferred
+                level1.append(add([cn], lk, 'none', top=True))
+                if cn.startswith('with'):
+                    level1.append(add([cn], rng.choice(FN_DML), rng.choice(['none', 'mod']), top=False))
+            else:
+                level1.append(add([cn], lk, 'none' if rng.random() < 0.75 else 'mod'))
+        else:
+            for lk in FN_DML:
+                level1.append(add([cn], lk, 'none', top=True))
+                add([cn], lk, rng.choice(['none', 'mod']), top=False)
+    for _ in range(12 if quick else 400):
+        chain = [rng.choice(names) for _ in range(rng.choice([2, 2, 3]))]
+        level1.append(add(chain, rng.choice(FN_DML), rng.choice(['none', 'none', 'mod'])))
+    for _ in range(5 if quick else 60):          # declared lower than inferred: must be rejected
+        add([rng.choice(names)], rng.choice(FN_DML), 'low')
+    for _ in range(6 if quick else 60):          # pure controls
+        add([rng.choice(names)], rng.choice(['rd', 'logs', 'lit']), rng.choice(['none', 'low']))
+    # call chains: g calls a generated f (whose DML sits in some context), h calls g
+    level2 = []
+    for _ in range(10 if quick else 200):
+        f = rng.choice(level1)
+        chain = [rng.choice(names) for _ in range(rng.choice([0, 1, 1]))]
+        level2.append(add(chain, f.call, rng.choice(['none', 'none', 'mod']), deps=(f.name,)))
+    for _ in range(4 if quick else 60):
+        g = rng.choice(level2)
+        chain = [rng.choice(names) for _ in range(rng.choice([0, 1]))]
+        add(chain, g.call, 'none', deps=(g.name,))
+    return specs
 
 
 # ================================================================ real side
@@ -372,6 +452,9 @@ class Real:
         self.enums, self.dbstate, self.c, self.errors, self.edgeql = enums, dbstate, c, errors, edgeql
         self.qlast, self.qlparser = qlast, qlparser
         self.Cap = enums.Capability
+        self.Modifying = qltypes.Volatility.Modifying
+        self._memo = {}
+        self._schemas = []      # keep schemas alive (memo is keyed by id)
         # names of Modifying functions, read from the real schema objects
         self.modifying = set()
         std = env.std_schema()
@@ -389,36 +472,66 @@ class Real:
         s = self.env.server_context(self.schema)
         return dataclasses.replace(s, **kw) if kw else s
 
+    def classify(self, e):
+        m = str(e)
+        if 'cannot be used in a FILTER clause' in m or 'cannot be used in an ORDER BY clause' in m:
+            return ('rej', 'clause', m)
+        if "mutations are invalid in a shape's computed expression" in m:
+            return ('rej', 'shape', m)
+        if 'volatility mismatch in function declared as' in m:
+            return ('rej', 'volatility', m)
+        return ('rej', 'other', f'{type(e).__name__}: {m}'[:200])
+
+    def create_fn(self, schema, ddl, name):
+        """`create function` through the real DDL path -> ('ok', schema', stored volatility is Modifying,
+        body-can-write witness) | ('rej', class, message)"""
+        try:
+            sch2 = self.env.run_ddl(schema, ddl)
+        except self.errors.EdgeDBError as e:
+            return self.classify(e)
+        except Exception as e:
+            return ('rej', 'internal', f'{type(e).__name__}: {e}'[:200])
+        self._schemas.append(sch2)
+        fn = sch2.get_functions('default::' + name)[0]
+        memo = self._memo.setdefault(id(sch2), {})
+        return ('ok', sch2, fn.get_volatility(sch2) == self.Modifying, self.fn_can_write(sch2, fn, memo),
+                str(fn.get_volatility(sch2)))
+
     def compile(self, text, sctx=None):
         """-> ('ok', caps:int, [unit caps]) | ('rej', class, message)"""
         try:
             grp = self.env.server_compile(sctx or self.sctx, text)
             return ('ok', int(grp.capabilities), [int(u.capabilities) for u in grp])
         except self.errors.EdgeDBError as e:
-            m = str(e)
-            if 'cannot be used in a FILTER clause' in m or 'cannot be used in an ORDER BY clause' in m:
-                return ('rej', 'clause', m)
-            if "mutations are invalid in a shape's computed expression" in m:
-                return ('rej', 'shape', m)
-            return ('rej', 'other', f'{type(e).__name__}: {m}'[:200])
+            return self.classify(e)
         except Exception as e:  # internal error of the compiler: not a verdict on C08
             return ('rej', 'internal', f'{type(e).__name__}: {e}'[:200])
 
-    # -------- oracle S: independent walk over the real parsed tree
-    def contains_dml(self, text) -> tuple[bool, list[str]]:
+    # -------- oracle S: independent walk over the real parsed trees.  "Can this statement write?" is
+    # decided from syntax only: an Insert/Update/Delete node in the statement, or a call of a function
+    # whose stored BODY (parsed from the schema's nativecode), transitively, contains such a node.
+    # The volatility stored in the schema is NOT consulted for that verdict.
+    def _walk(self, tree, schema, found, declared, memo):
         qlast = self.qlast
-        trees = self.qlparser.parse_block(text)
-        found = []
 
         def walk(n):
             if isinstance(n, (qlast.InsertQuery, qlast.UpdateQuery, qlast.DeleteQuery)):
                 found.append(type(n).__name__)
             if isinstance(n, qlast.FunctionCall):
                 f = n.func
-                names = {f} if isinstance(f, str) else {'::'.join(f), f[-1]}
-                for nm in names:
-                    if nm in self.modifying or ('default::' + nm) in self.modifying:
-                        found.append('call ' + nm)
+                nm = f if isinstance(f, str) else '::'.join(f)
+                try:
+                    fns = schema.get_functions(nm, default=(), module_aliases={None: 'default'})
+                except Exception:
+                    fns = ()
+                for fn in fns:
+                    w = self.fn_can_write(schema, fn, memo)
+                    if w:
+                        found.append(f'call {nm} -> {w[0]}')
+                        break
+                for fn in fns:
+                    if fn.get_volatility(schema) == self.Modifying:
+                        declared.append(nm)     # only used to compare with the model's containsDML
                         break
             if isinstance(n, qlast.Base):
                 for name in type(n)._fields:
@@ -431,8 +544,31 @@ class Real:
             elif isinstance(n, dict):
                 for x in n.values():
                     walk(x)
-        walk(trees)
-        return bool(found), found
+        walk(tree)
+
+    def fn_can_write(self, schema, fn, memo):
+        """[] / [witness]: does the stored body of `fn` contain DML (through nested calls)?"""
+        key = fn.id
+        if key in memo:
+            return memo[key]
+        memo[key] = []          # recursion guard (EdgeQL functions cannot be recursive)
+        code = fn.get_nativecode(schema)
+        if code is None or fn.get_language(schema) != self.qlast.Language.EdgeQL:
+            return memo[key]
+        found: list[str] = []
+        self._walk(code.parse(), schema, found, [], memo)
+        memo[key] = found[:1]
+        return memo[key]
+
+    def contains_dml(self, text, schema=None):
+        """-> (can_write, witnesses, model_contains): model_contains additionally counts calls of
+        functions whose stored volatility is Modifying (what the MiniQL `containsDML` means)."""
+        schema = schema or self.schema
+        memo = self._memo.setdefault(id(schema), {})
+        found: list[str] = []
+        declared: list[str] = []
+        self._walk(self.qlparser.parse_block(text), schema, found, declared, memo)
+        return bool(found), found, bool(found) or bool(declared)
 
 
 # hand-written contexts outside the MiniQL grammar (oracle only). {D} = DML leaf text
@@ -577,7 +713,7 @@ KIND_SCENARIOS = [
     (('AdministerStmt', ()), [
         ([], {}, 'administer vacuum()'),
         ([], {}, 'administer statistics_update()'),
-        ([], {}, 'administer schema_repair()'),
+        ([], {}, 'administer schema_repair()', S),
         ([], {}, 'administer reindex(Log)'),
         ([], {}, 'administer vacuum(Log, full := true)'),
     ]),
@@ -600,7 +736,7 @@ KIND_SCENARIOS = [
         ([], {}, 'describe object Log as text'),
     ]),
 ]
-QUICK_DDL_SAMPLE = 3
+QUICK_DDL_SAMPLE = 2
 
 
 def row_line(cmd, key):
@@ -637,7 +773,8 @@ def run(ctx: core.Ctx):
         lines.append(line)
         after.append(cb)
 
-    stats = {'l1_group': 0, 'l1_mkerr': 0, 'terms': 0, 'extra': 0, 'kinds': 0, 'scripts': 0}
+    stats = {'l1_group': 0, 'l1_mkerr': 0, 'terms': 0, 'extra': 0, 'kinds': 0, 'scripts': 0,
+             'fn_created': 0, 'fn_callers': 0}
     outcome_hist: dict[str, int] = {}
     ctx_hist: dict[str, int] = {}
     leaf_hist: dict[str, int] = {}
@@ -715,13 +852,18 @@ def run(ctx: core.Ctx):
         return rng.getrandbits(64)
 
     # ============================================================ level 2 (a)
-    def check_term(e: E, mode: str, meta):
+    def check_term(e: E, mode: str, meta, sctx=None, schema=None, fn_detail=None):
+        """`sctx`/`schema`: compile against a schema extended with generated functions;
+        `fn_detail`: what a replay needs to rebuild that schema and the model environment"""
         text = stmt_text(e, mode)
-        real = R.compile(text)
-        has, found = R.contains_dml(text)
+        real = R.compile(text, sctx)
+        has, found, has_model = R.contains_dml(text, schema)
         line = f'q {mode} ' + ' '.join(e.toks)
-        stats['terms'] += 1
+        stats['fn_callers' if fn_detail is not None else 'terms'] += 1
         key = f'{mode}:{text}'
+        if fn_detail is not None:
+            key = f'fn:{fn_detail["callee"]}:' + key
+        fnd = {'fn': fn_detail} if fn_detail is not None else {}
         oc = real[0] if real[0] == 'ok' else f'rej:{real[1]}'
         if real[0] == 'ok':
             oc = 'ok:MOD' if real[1] & MOD else 'ok:none'
@@ -732,14 +874,16 @@ def run(ctx: core.Ctx):
         if real[0] == 'ok':
             if has and not (real[1] & MOD):
                 failed = True
-                ctx.fail('oracle:' + key, 'statement contains DML but the compiler did not attach MODIFICATIONS',
+                ctx.fail('oracle:' + key, 'executing the statement can write (DML node in the statement or, '
+                         'transitively, in the stored body of a called function) but the compiler did not attach '
+                         'MODIFICATIONS',
                          {'text': text, 'mode': mode, 'toks': list(e.toks), 'dml_nodes': found,
-                          'capabilities': real[1], 'meta': meta})
+                          'capabilities': real[1], 'meta': meta} | fnd)
             if real[1] & ~MOD:
                 failed = True
                 ctx.fail('oracle:' + key, 'a query statement carries a capability other than MODIFICATIONS',
-                         {'text': text, 'mode': mode, 'toks': list(e.toks), 'capabilities': real[1]})
-            if not has:
+                         {'text': text, 'mode': mode, 'toks': list(e.toks), 'capabilities': real[1]} | fnd)
+            if not has_model:
                 precision['no_dml_cases'] += 1
                 if real[1] & MOD:
                     precision['no_dml_flagged'] += 1
@@ -761,7 +905,7 @@ def run(ctx: core.Ctx):
                 rs = f'ok {real[1]}'
                 ms = ' '.join(parts[:2])
                 # model's own containsDML must agree with the independent walk of the real tree
-                extra = (parts[0] == 'ok' and parts[2] != ('1' if has else '0'))
+                extra = (parts[0] == 'ok' and parts[2] != ('1' if has_model else '0'))
             else:
                 rs = f'rej {real[1]}'
                 ms = m
@@ -772,7 +916,8 @@ def run(ctx: core.Ctx):
                     ctx.fail('corr:' + key, 'server compiler and MiniQL model disagree on the outcome',
                              {'text': text, 'mode': mode, 'toks': list(e.toks), 'real': rs,
                               'real_detail': real[2] if real[0] == 'rej' else real[1], 'model': m,
-                              'oracle_contains_dml': has, 'meta': meta}, no_input=True)
+                              'oracle_can_write': has, 'oracle_model_contains': has_model, 'meta': meta} | fnd,
+                             no_input=True)
         ask(line, cb)
 
     # ============================================================ level 2 (b)
@@ -782,7 +927,7 @@ def run(ctx: core.Ctx):
             text = 'analyze ' + text
         real = R.compile(text)
         try:
-            has, found = R.contains_dml(text)
+            has, found, has_model = R.contains_dml(text)
         except Exception as e:
             raise core.Infra(f'cannot parse hand-written context {text!r}: {e}')
         stats['extra'] += 1
@@ -795,7 +940,7 @@ def run(ctx: core.Ctx):
             if has and not (real[1] & MOD):
                 ctx.fail('oracle:' + key, 'statement contains DML but the compiler did not attach MODIFICATIONS',
                          {'text': text, 'mode': mode, 'dml_nodes': found, 'capabilities': real[1]})
-            if not has:
+            if not has_model:
                 precision['no_dml_cases'] += 1
                 if real[1] & MOD:
                     precision['no_dml_flagged'] += 1
@@ -854,8 +999,7 @@ def run(ctx: core.Ctx):
         key = 'script:' + text
         has_any = False
         for p in parts:
-            h, _ = R.contains_dml(p[0])
-            has_any |= h
+            has_any |= R.contains_dml(p[0])[0]
         if real[0] == 'ok':
             orr = 0
             for u in real[2]:
@@ -880,6 +1024,76 @@ def run(ctx: core.Ctx):
                          no_input=True)
         ask('script ' + ' ; '.join(' '.join(p[1]) for p in parts), cb)
 
+    # ============================================================ level 2 (e): generated functions
+    fn_hist = {'created': 0, 'created_modifying': 0, 'created_body_can_write': 0, 'rej:clause': 0,
+               'rej:shape': 0, 'rej:volatility': 0, 'rej:other': 0, 'rej:internal': 0}
+    fn_annot_hist: dict[str, int] = {}
+
+    def closure(sp, by_name):
+        out = []
+        for d in sp.deps:
+            if d in by_name:
+                for x in closure(by_name[d], by_name) + [by_name[d]]:
+                    if x not in out:
+                        out.append(x)
+        return out
+
+    def create_functions(specs, base_schema, judge=True):
+        """create the functions one by one (real DDL path) on top of `base_schema`; -> (schema, accepted)"""
+        sch = base_schema
+        by_name = {sp.name: sp for sp in specs}
+        accepted = []
+        for sp in specs:
+            ddl = sp.ddl
+            real = R.create_fn(sch, ddl, sp.name)
+            stats['fn_created'] += 1
+            fn_annot_hist[sp.annot] = fn_annot_hist.get(sp.annot, 0) + 1
+            chain = closure(sp, by_name) + [sp]
+            detail = {'fndef': {'name': sp.name, 'ddls': [x.ddl for x in chain], 'decls': [x.decl for x in chain]},
+                      'meta': sp.meta}
+            key = 'fndef:' + ' '.join(x.ddl for x in chain)
+            if real[0] == 'ok':
+                sch = real[1]
+                accepted.append(sp)
+                fn_hist['created'] += 1
+                fn_hist['created_modifying'] += bool(real[2])
+                fn_hist['created_body_can_write'] += bool(real[3])
+                if judge and real[3] and not real[2]:
+                    ctx.fail('oracle:' + key, 'the body of the function contains DML (' + real[3][0] + ') but the '
+                             'function is stored with volatility ' + real[4] + ': calls of it are not recorded as DML',
+                             detail | {'stored_volatility': real[4]})
+                rs = f'ok {1 if real[2] else 0}'
+            else:
+                fn_hist['rej:' + real[1]] += 1
+                if real[1] == 'internal':
+                    internal.append({'text': ddl, 'error': real[2]})
+                rs = f'rej {real[1]}'
+
+            def cb(m, rs=rs, real=real, key=key, detail=detail):
+                if real[0] == 'rej' and real[1] in ('other', 'internal'):
+                    return
+                ms = ' '.join(m.split(' ')[:2]) if m.startswith('ok') else m
+                if ms != rs:
+                    n_dis[0] += 1
+                    ctx.fail('corr:' + key, 'create function: schema engine and model disagree on acceptance / '
+                             'on whether the function is Modifying',
+                             detail | {'real': rs, 'real_detail': real[2] if real[0] == 'rej' else real[4], 'model': m},
+                             no_input=True)
+            ask(sp.decl, cb if judge else (lambda m: None))
+        return sch, accepted, by_name
+
+    def check_fn_callers(accepted, by_name, sch, n_ctx):
+        sctx2 = R.env.server_context(sch)
+        names = sorted(CTX)
+        for sp in accepted:
+            chain_specs = closure(sp, by_name) + [sp]
+            fd = {'callee': sp.name, 'ddls': [x.ddl for x in chain_specs], 'decls': [x.decl for x in chain_specs]}
+            chains = [[]] + [[rng.choice(names) for _ in range(rng.choice([1, 1, 2]))]
+                             for _ in range(n_ctx if n_ctx >= 1 else int(rng.random() < 0.5))]
+            for ch in chains:
+                mode = 'analyze' if rng.random() < 0.1 else 'query'
+                check_term(build(ch, sp.call), mode, {'chain': ch, 'callee': sp.meta}, sctx2, sch, fd)
+
     # ------------------------------------------------------------ populations
     if replay is not None:
         for f in replay:
@@ -890,6 +1104,33 @@ def run(ctx: core.Ctx):
                 l1_group(d['caps'])
             elif d.get('l1') == 'mkerr':
                 l1_mkerr(d['s'], d['a'])
+            elif 'fndef' in d:
+                sps = []
+                for ddl, decl in zip(d['fndef']['ddls'], d['fndef']['decls']):
+                    sps.append((ddl, decl))
+                sch = R.schema
+                for i, (ddl, decl) in enumerate(sps):
+                    nm = decl.split(' ')[1]
+                    real = R.create_fn(sch, ddl, nm)
+                    ask(decl, lambda m: None)
+                    if real[0] != 'ok':
+                        break
+                    sch = real[1]
+                    if i == len(sps) - 1 and real[3] and not real[2]:
+                        ctx.fail(f['key'], f['what'], d)
+            elif 'fn' in d:
+                sch = R.schema
+                okk = True
+                for ddl, decl in zip(d['fn']['ddls'], d['fn']['decls']):
+                    real = R.create_fn(sch, ddl, decl.split(' ')[1])
+                    ask(decl, lambda m: None)
+                    if real[0] != 'ok':
+                        okk = False
+                        break
+                    sch = real[1]
+                if okk:
+                    e = E('?', tuple(d['toks']), '', top=d['text'][8:] if d['mode'] == 'analyze' else d['text'])
+                    check_term(e, d['mode'], d.get('meta'), R.env.server_context(sch), sch, d['fn'])
             elif 'toks' in d:
                 e = E('?', tuple(d['toks']), '', top=d['text'][8:] if d['mode'] == 'analyze' else d['text'])
                 check_term(e, d['mode'], d.get('meta'))
@@ -901,7 +1142,7 @@ def run(ctx: core.Ctx):
                 check_script(list(zip(texts, [tuple(p) for p in d['parts']])))
             elif 'text' in d:
                 real = R.compile(d['text'])
-                has, found = R.contains_dml(d['text'])
+                has, found, _hm = R.contains_dml(d['text'])
                 if real[0] == 'ok' and has and not (real[1] & MOD):
                     ctx.fail(f['key'], f['what'], d)
     else:
@@ -922,8 +1163,9 @@ def run(ctx: core.Ctx):
         t0 = time.time()
         ALWAYS = ['insert', 'update', 'delete', 'mklog', 'logs']
         OTHERS = ['mkinf', 'mk2', 'noop', 'rd', 'rd2', 'lit']
+        QUICK_OTHERS = ['delete', 'mklog', 'mkinf', 'mk2', 'noop', 'rd', 'rd2', 'lit', 'logs']
         for cn in names:
-            for lk in ALWAYS + (rng.sample(OTHERS, 1) if ctx.quick() else OTHERS):
+            for lk in (['insert', 'update'] + rng.sample(QUICK_OTHERS, 2) if ctx.quick() else ALWAYS + OTHERS):
                 e = build([cn], lk)
                 check_term(e, 'query', {'chain': [cn], 'leaf': lk})
                 ctx_hist[cn] = ctx_hist.get(cn, 0) + 1
@@ -935,7 +1177,7 @@ def run(ctx: core.Ctx):
             check_term(leaf(lk), 'query', {'chain': [], 'leaf': lk})
             check_term(leaf(lk), 'analyze', {'chain': [], 'leaf': lk})
         ctx.log(f'depth-1 contexts done: {stats["terms"]} compiles in {time.time() - t0:.1f}s')
-        n_rand = ctx.budget(120, 2000)
+        n_rand = ctx.budget(60, 2000)
         if not ctx.quick():
             # all depth-2 compositions, one random leaf each
             for c1 in names:
@@ -953,11 +1195,19 @@ def run(ctx: core.Ctx):
                        {'chain': chain, 'leaf': lk})
         ctx.log(f'MiniQL terms done: {stats["terms"]} compiles in {time.time() - t0:.1f}s')
 
+        # ---- level 2 (e): functions whose body has the DML in every context, and their callers
+        t0 = time.time()
+        specs = gen_fn_specs(rng, ctx.quick())
+        sch_fn, accepted, by_name = create_functions(specs, R.schema)
+        ctx.log(f'{len(specs)} generated functions through the real DDL path in {time.time() - t0:.1f}s: {fn_hist}')
+        check_fn_callers(accepted, by_name, sch_fn, 0 if ctx.quick() else 3)
+        ctx.log(f'callers of generated functions done: {stats["fn_callers"]} compiles, {time.time() - t0:.1f}s')
+
         # ---- level 2 (b)
         for tmpl in EXTRA_CONTEXTS:
             lks = list(EXTRA_LEAVES)
             if ctx.quick():
-                lks = rng.sample(EXTRA_DML, 2) + [rng.choice(['pure', 'purefn'])]
+                lks = rng.sample(EXTRA_DML, 1) + rng.sample(EXTRA_DML + ['pure', 'purefn'], 1)
             for lk in lks:
                 check_extra(tmpl, lk)
                 if lk in ('insert', 'mklog') and (not ctx.quick() or rng.random() < 0.2):
@@ -1051,6 +1301,8 @@ def run(ctx: core.Ctx):
         'rejected_for_unmodelled_reasons_samples': unmodelled_samples,
         'internal_errors': len(internal),
         'precision_record': precision,
+        'generated_functions': fn_hist,
+        'generated_functions_by_annotation': fn_annot_hist,
         'statement_kinds': kinds_cov,
         'statement_kinds_rejected_examples': rej_kinds,
         'generated_table': gen_info and {'rows': gen_info['rows'], 'n_classes': len(gen_info['classes']),
